@@ -167,10 +167,28 @@ def gen_formula(rng, params, reg0=False, forms=None, depth=2, tables=None):
       return ["*", P(), ["call", "exp", [["neg", ["/", r, ["+", ["call", "abs", [P()]], N(0.5)]]]]]]
     if c < 0.30:
       return ["*", P(), ["^", ["+", r, N(rfloat(rng, 0.5, 2.0))], N(float(rng.choice([-1, -2, -3, -6, 2, 0.5])))]]
-    if c < 0.40:
-      fn = rng.choice(["pymath.exp", "pymath.sin", "pymath.cos", "pymath.tanh", "pymath.atan", "pymath.sinh"])
+    if c < 0.36:
+      fn = rng.choice(["pymath.exp", "pymath.sin", "pymath.cos", "pymath.tanh", "pymath.atan", "pymath.sinh", "pymath.cosh", "pymath.asinh",
+                       "pymath.log1p", "pymath.fabs", "pymath.degrees", "pymath.radians"])
       arg = ["*", N(rfloat(rng, -0.2, 0.2)), r]
+      if fn == "pymath.log1p":
+        arg = ["*", arg, arg]
       return ["*", P(), ["call", fn, [arg]]]
+    if c < 0.40:
+      # two-argument and variadic pymath functions
+      k = N(rfloat(rng, 0.5, 3.0))
+      fn = rng.choice(["pymath.hypot", "pymath.atan2", "pymath.pow", "pymath.fsum", "pymath.log", "pymath.log10", "pymath.log2", "pymath.copysign"])
+      if fn == "pymath.pow":
+        return ["*", P(), ["call", fn, [["+", r, k], N(float(rng.choice([2, -1, 0.5, 3])))]]]
+      if fn == "pymath.fsum":
+        return ["call", fn, [["*", P(), r], k, ["*", N(rfloat(rng, -1, 1)), ["*", r, r]], N(rfloat(rng, -2, 2))]]
+      if fn == "pymath.log":
+        return ["*", P(), ["call", fn, [["+", ["*", r, r], k], N(float(rng.choice([2.0, 10.0, 3.5])))]]]
+      if fn in ("pymath.log10", "pymath.log2"):
+        return ["*", P(), ["call", fn, [["+", ["*", r, r], k]]]]
+      if fn == "pymath.copysign":
+        return ["call", fn, [["+", r, k], N(rng.choice([-1.0, 1.0, -2.5]))]]
+      return ["*", P(), ["call", fn, [r, k] if rng.random() < 0.5 else [k, ["+", r, N(0.25)]]]]
     if c < 0.50:
       fn = rng.choice(["sin", "cos", "tanh", "erfc", "exp"])
       arg = ["*", N(rfloat(rng, -0.2, 0.2)), ["-", r, N(rfloat(rng, 0.0, 3.0))]]
@@ -336,7 +354,7 @@ def gen_node(rng, depth=2, route="potable", reg0=False, positive=False, smooth=F
   if k == "form":
     return gen_form(rng, reg0=reg0, smooth=smooth, rmax=rmax + 2.5, strict0=(reg0 and route == "api"))
   if k in ("sum", "product"):
-    return {"k": k, "a": [sub() for _ in range(rng.choice([2, 2, 3, 4]))]}
+    return {"k": k, "a": [sub() for _ in range(rng.choice([1, 2, 2, 3, 4]))]}
   if k == "pow":
     cst = lambda lo, hi: {"k": "form", "name": "constant", "p": [rfloat(rng, lo, hi)]}
     expo = rng.choice([{"k": "form", "name": "constant", "p": [rng.choice([2.0, 0.5, -1.0, 3.0, rfloat(rng, -2.0, 2.5)])]},
@@ -348,6 +366,8 @@ def gen_node(rng, depth=2, route="potable", reg0=False, positive=False, smooth=F
     return {"k": "pow", "a": [gen_node(rng, max(0, depth - 1), route, reg0, True, smooth), expo]}
   if k == "trans":
     x = rfloat(rng, 0.1, 2.0)  # positive shift keeps r+X inside the domain
+    if reg0 and rng.random() < 0.3:
+      x = -x                   # regular-at-0 bodies may also be shifted the other way (f is 0 for r+X <= 0 in potable)
     return {"k": "trans", "f": gen_node(rng, depth - 1, route, reg0, False, smooth, forms, tables, kinds, rmax + 2.0), "x": x}
   if k == "ranges":
     n = rng.choice([1, 2, 2, 3, 4])
@@ -537,6 +557,10 @@ def gen_pair_model(rng, route="potable", npots=None, reg0=False, depth=2, target
   npots = npots or rng.choice([1, 1, 2, 2, 3, 4, 6])
   nsp = rng.choice([1, 2, 3, 4])
   sp = species_list(rng, nsp, maxlen=maxlabel)
+  if route == "api" and rng.random() < 0.25:
+    # through the Python API a label is any string without white space: charges, dots, even hyphens
+    sp = [x + rng.choice(["2-", "+3", ".1", "-", "_core", "4+"])[:max(0, maxlabel - len(x))] for x in sp]
+    sp = list(dict.fromkeys(sp))
   pairs = []
   for i in range(len(sp)):
     for j in range(i, len(sp)):
